@@ -24,6 +24,7 @@ META = {
         "idioms: replace / split with a pattern containing both \\n and \\r, a chars() filter/map on those, split_whitespace; "
         "`lines()` is not one — it leaves a lone \\r, which the grammar reads as a line break). R5: the "
         "output is sorted by a stable sort keyed by the row date. Does not decide row-order independence or chunking. R3 also: the keyword of a trade line agrees with the kind of the row, and the CLI prints nothing derived from the warnings to standard output. R2 also: the vector of output lines is never thinned (dedup/retain/…), also when it is filled through a helper. R3 also: an amount printed into an optional FEES/TAX clause is positive on the path that prints it (`> 0` guard, `Option::filter(|v| *v > 0)`, or abs) — the grammar's numbers carry no sign. R1 also: every action name the row classifier lists reaches the arm it is listed under (no guard arm above shadows a literal). R2 also: sibling parsed-row structures receive `symbol` through the same normalisation (trim/case), so rows joined by (date, symbol) meet."),
+    # R6 is described in run(): no may-panic construct in converter code (shared with C15-R1/R2)
     "trusted_base": ["str::replace/lines/chars semantics", "Vec::sort_by_key is stable", "rustc MIR + resolution",
                      "precondition of the property: symbols are alphanumeric (symbols are not sanitised)"],
 }
@@ -1208,7 +1209,23 @@ def run(ctx, rep):
     c19.map_building(F, r2)
     c19.rsu_arm(F, r2)
     for o in r2.obligations:
+        if "StockPlanActivity" in o["instance"]:
+            continue        # C19-R3 re-uses this property's own per-arm accounting: already listed above
         rep.ob("R2", "rsu:" + o["instance"], o["ok"], o["detail"], o["site"], key="R2:rsu:" + o["instance"])
+    # "every row is converted, skipped with a count, or surfaced as a comment and a warning … whatever the free-text fields contain":
+    # a row whose text makes the converter PANIC is none of the three, and takes every other row of the export with it. No explicit
+    # may-panic call (unwrap/expect, `String::truncate`/`split_at`/`remove` on a byte position, …) and no undischarged bounds/overflow
+    # assertion in converter code (shared with C15-R1/R2; seeded change C18-s9 cut a description at byte 77 with `truncate`, which
+    # panics inside a multi-byte character). Decimal-operator overflow is not repeated here (known finding under C15-R3).
+    import rules.c15 as c15
+    r3 = Report("tmp")
+    c15.run(ctx, r3)
+    n = 0
+    for o in r3.obligations:
+        if o["rule"] in ("R1", "R2") and str(o["site"]).startswith("crates/cgt-converter/"):
+            n += 1
+            rep.ob("R6", o["instance"], o["ok"], o["detail"], o["site"], key="R6:" + o["instance"])
+    rep.count("converter_may_panic_candidates", n)
 
 
 def controls(pctx, rep):
